@@ -468,6 +468,71 @@ def sf_wf_error(ex, st, e, parser):
                   z3.Or(f["end_lineno"] > f["lineno"], z3.And(f["end_lineno"] == f["lineno"], f["end_offset"] >= f["offset"])))
 
 
+def _piece_pos(v, which):
+    """(line, col) z3 pair of a token / node / union of them"""
+    from engine.pyvals import PyUnion
+    if isinstance(v, PyUnion):
+        alts = [_piece_pos(a, which) for a in v.alts]
+        out = alts[-1]
+        for k in range(len(alts) - 2, -1, -1):
+            out = (z3.If(v.kind == k, alts[k][0], out[0]), z3.If(v.kind == k, alts[k][1], out[1]))
+        return out
+    if is_tok(v):
+        return (Tok.sl(v), Tok.sc(v)) if which == "start" else (Tok.el(v), Tok.ec(v))
+    return (_pos_field(v, "lineno"), _pos_field(v, "col_offset")) if which == "start" else (_pos_field(v, "end_lineno"), _pos_field(v, "end_col_offset"))
+
+
+def _brk(seq, j):
+    """piece j does not start where piece j-1 ends (j >= 1)"""
+    e = _piece_pos(seq.at(j - 1), "end")
+    b = _piece_pos(seq.at(j), "start")
+    return z3.Not(z3.And(e[0] == b[0], e[1] == b[1]))
+
+
+def _run_funcs(ex, st, seq, i):
+    """R(i): number of maximal runs of adjacent pieces among the first i pieces; B(i): index where the run containing piece i-1 begins.
+    Defined by recursion over i (definitional axioms, stated for all i and instantiated at i and i-1 for the solver):
+      R(0) = 0, R(1) = 1, R(i+1) = R(i) + (1 if brk(i) else 0);   B(1) = 0, B(i+1) = (i if brk(i) else B(i))"""
+    key = seq.j.decl().name()
+    R = z3.Function(f"runs@{key}", z3.IntSort(), z3.IntSort())
+    B = z3.Function(f"run_begin@{key}", z3.IntSort(), z3.IntSort())
+    q = z3.Int("rf!q")
+
+    def step(x):
+        return z3.And(R(x + 1) == R(x) + z3.If(_brk(seq, x), 1, 0), B(x + 1) == z3.If(_brk(seq, x), x, B(x)))
+    # the recursion equations are handed to the solver as ground instances at the indices the clause mentions (i and i-1): the universally
+    # quantified form makes the queries unstable (arithmetic patterns), and no obligation needs an unfolding elsewhere
+    ax = [R(0) == 0, R(1) == 1, B(1) == 0]
+    i = lift(i)
+    for x in (i, i - 1):
+        ax.append(z3.Implies(x >= 1, step(x)))
+    for a in ax:
+        ex.add_axiom(a)
+    return R, B
+
+
+def sf_runs(ex, st, seq, i):
+    return _run_funcs(ex, st, seq, i)[0](lift(i))
+
+
+def sf_run_begin(ex, st, seq, i):
+    return _run_funcs(ex, st, seq, i)[1](lift(i))
+
+
+def sf_brk(ex, st, seq, j):
+    return _brk(seq, lift(j))
+
+
+def sf_yield_at(ex, st, y):
+    from engine.pyvals import NodeAbs
+    return NodeAbs.at(y)
+
+
+def sf_node_id(ex, st, n):
+    from engine.pyvals import NodeAbs, ident_of
+    return NodeAbs.ident(n) if z3.is_expr(n) else ident_of(n)
+
+
 def _pos_field(n, f):
     from engine.pyvc import Unsupported
     if not (isinstance(n, PyObj) and f in n.fields):
@@ -476,18 +541,28 @@ def _pos_field(n, f):
 
 
 def sf_node_start(ex, st, n):
+    from engine.pyvals import NodeAbs, PyUnion
+    if z3.is_expr(n) and n.sort() == NodeAbs:
+        return PyTuple([NodeAbs.sl(n), NodeAbs.sc(n)])
+    if isinstance(n, PyUnion):
+        return PyTuple(list(_piece_pos(n, "start")))
     if is_tok(n):
         return PyTuple([Tok.sl(n), Tok.sc(n)])
     return PyTuple([_pos_field(n, "lineno"), _pos_field(n, "col_offset")])
 
 
 def sf_node_end(ex, st, n):
+    from engine.pyvals import NodeAbs, PyUnion
+    if z3.is_expr(n) and n.sort() == NodeAbs:
+        return PyTuple([NodeAbs.el(n), NodeAbs.ec(n)])
+    if isinstance(n, PyUnion):
+        return PyTuple(list(_piece_pos(n, "end")))
     if is_tok(n):
         return PyTuple([Tok.el(n), Tok.ec(n)])
     return PyTuple([_pos_field(n, "end_lineno"), _pos_field(n, "end_col_offset")])
 
 
-SPEC_FUNCS = {"lines_ok": sf_lines_ok, "node_start": sf_node_start, "node_end": sf_node_end, "node_wf": sf_node_wf, "wf_error": sf_wf_error, "tok_wf": sf_tok_wf, "toks_wf": sf_toks_wf, "lines_left": sf_lines_left, "indent_col": sf_indent_col, "indents_wf": sf_indents_wf, "is_blank_char": sf_is_blank_char, "last": sf_last, "lr_cache_ok": sf_lr_cache_ok, "cache_ok": sf_cache_ok, "cache_has": sf_cache_has, "cache_end": sf_cache_end, "cache_tree": sf_cache_tree, "em_cached": sf_em_cached, "tk_ok": sf_tk_ok, "can_peek": sf_can_peek, "layout": sf_layout, "cache_wf": sf_cache_wf, "truthy": sf_truthy, "is_none": sf_is_none, "pos_le": sf_pos_le,
+SPEC_FUNCS = {"runs": sf_runs, "run_begin": sf_run_begin, "brk": sf_brk, "yield_at": sf_yield_at, "node_id": sf_node_id, "lines_ok": sf_lines_ok, "node_start": sf_node_start, "node_end": sf_node_end, "node_wf": sf_node_wf, "wf_error": sf_wf_error, "tok_wf": sf_tok_wf, "toks_wf": sf_toks_wf, "lines_left": sf_lines_left, "indent_col": sf_indent_col, "indents_wf": sf_indents_wf, "is_blank_char": sf_is_blank_char, "last": sf_last, "lr_cache_ok": sf_lr_cache_ok, "cache_ok": sf_cache_ok, "cache_has": sf_cache_has, "cache_end": sf_cache_end, "cache_tree": sf_cache_tree, "em_cached": sf_em_cached, "tk_ok": sf_tk_ok, "can_peek": sf_can_peek, "layout": sf_layout, "cache_wf": sf_cache_wf, "truthy": sf_truthy, "is_none": sf_is_none, "pos_le": sf_pos_le,
               "endmarker_last": sf_endmarker_last, "endmarker_pulled": sf_endmarker_pulled, "gen_pos": sf_gen_pos,
               "gen_len": sf_gen_len, "gen_cat": sf_gen_cat, "gen_count": sf_gen_count, "le_isbytes": sf_le_isbytes, "lit_isbytes": sf_lit_isbytes, "lit_val": sf_lit_val,
               "lit_fold": sf_lit_fold, "has_field": sf_has_field, "is_translation": sf_is_translation, "all_located": sf_all_located, "mode_kind_of": sf_mode_kind_of, "mode_level_of": sf_mode_level_of, "pat_kind": sf_pat_kind, "same_frame": sf_same_frame, "pat_q": sf_pat_q, "gen_item": sf_gen_item, "prefix_of": sf_prefix_of, "tok_type": sf_tok_type}
